@@ -24,6 +24,12 @@ def tiers(quick_runs, quick_budget, thorough_runs, thorough_budget, **kw):
 PLANS = {}
 
 
+def native(layers):
+    """The same layers hosted by the simulator built with the repository's own toolchain (bin/build_sim.sh native):
+    only for layers that need no synctest bubble (real goroutines, sockets, processes)."""
+    return [dict(l, params=(l.get("params", "") + ",native=1").lstrip(",")) for l in layers]
+
+
 def plan(pid, level, rule, quick, thorough, **kw):
     PLANS[pid] = dict(level=level, rule=rule, quick=quick, thorough=thorough, real_vs_stub=kw.pop("real_vs_stub", REAL_W1),
                       assumptions=kw.pop("assumptions", ASSUME_SCHED), **kw)
@@ -37,8 +43,8 @@ plan("C04", "exploration",
      "state machine incl. final export, plus the released-signature ledger.",
      q, t)
 q, t = tiers(150, 60, 8000, 1200)
-q["layers"] = [dict(runs=150, budget_s=60, params="")] * 15 + [dict(runs=6, budget_s=60, params="mode=free")]
-t["layers"] = [dict(runs=8000, budget_s=1200, params="")] * 15 + [dict(runs=300, budget_s=1200, params="mode=free")]
+q["layers"] = [dict(runs=150, budget_s=60, params="")] * 15 + [dict(runs=6, budget_s=60, params="mode=free")] + native([dict(runs=6, budget_s=60, params="mode=free")])
+t["layers"] = [dict(runs=8000, budget_s=1200, params="")] * 15 + [dict(runs=300, budget_s=1200, params="mode=free")] + native([dict(runs=300, budget_s=1200, params="mode=free")])
 q["require_probes"] = t["require_probes"] = ["free_running_runs_completed", "drain_phases"]
 plan("C15", "exploration",
      "one case = one seeded run as for C04 (thorough adds sustained-load runs of 16-64 requests); distinct = distinct schedule signature; "
@@ -52,16 +58,17 @@ HIST_RULE = ("one case = one seeded history of 5-60 conflict-seeking {kind} requ
              "sequential histories now and then try to start a second instance on the same directory, and (attestations) send a batch carrying an exact-capacity short-domain entry whose panic is the death of the daemon; distinct = distinct history; non-trivial = at least two signatures were released. "
              "Oracle: every released signature is entered in a per-key ledger and compared pairwise with all earlier ones{strict}.")
 q, t = tiers(250, 60, 20000, 1200)
-q["layers"] = [dict(runs=250, budget_s=60, params="")] * 15 + [dict(runs=25, budget_s=60, params="mode=free")]
-t["layers"] = [dict(runs=20000, budget_s=1200, params="")] * 15 + [dict(runs=3000, budget_s=1200, params="mode=free")]
+q["layers"] = [dict(runs=250, budget_s=60, params="")] * 15 + [dict(runs=25, budget_s=60, params="mode=free")] + native([dict(runs=25, budget_s=60, params="mode=free")])
+t["layers"] = [dict(runs=20000, budget_s=1200, params="")] * 15 + [dict(runs=3000, budget_s=1200, params="mode=free")] + native([dict(runs=3000, budget_s=1200, params="mode=free")])
 plan("C01", "exploration", HIST_RULE.format(kind="attestation", unit="target", extra="single and batched, batches repeating a key", strict=" (double vote, surround either way)"), q, t)
 q, t = tiers(250, 60, 20000, 1200)
 plan("C02", "exploration", HIST_RULE.format(kind="proposal", unit="slot", extra="proposer and foreign domains", strict=" (same slot/different block; in sequential histories slots must strictly increase in release order)"), q, t)
 
 q, t = tiers(120, 60, 6000, 1200)
 def c03_layers(runs, kill_runs, power_runs, full_runs, budget):
-    return ([dict(runs=runs, budget_s=budget, params="")] * 11 + [dict(runs=kill_runs, budget_s=budget, params="mode=kill")] * 2
-            + [dict(runs=power_runs, budget_s=budget, params="mode=power")] * 2 + [dict(runs=full_runs, budget_s=budget, params="mode=diskfull")])
+    return ([dict(runs=runs, budget_s=budget, params="")] * 11 + [dict(runs=kill_runs, budget_s=budget, params="mode=kill")] + native([dict(runs=kill_runs, budget_s=budget, params="mode=kill")])
+            + [dict(runs=power_runs, budget_s=budget, params="mode=power")] + native([dict(runs=power_runs, budget_s=budget, params="mode=power")]) + [dict(runs=full_runs, budget_s=budget, params="mode=diskfull")]
+            + native([dict(runs=full_runs, budget_s=budget, params="mode=diskfull")]))
 q["layers"] = c03_layers(120, 64, 12, 24, 60)
 t["layers"] = c03_layers(6000, 3200, 600, 1200, 1200)
 q["require_probes"] = ["crash_exact", "probe_crash_between_approval_and_signing", "sign_seam_checks", "ack_durability_checks", "crash_real_process_kill", "crash_power_loss_images", "released_lists_checked_pairwise"]
@@ -84,7 +91,7 @@ def batch_layers(runs, budget, scatter_runs):
     sc = dict(runs=scatter_runs, budget_s=budget, params="mode=scatter")
     return [main] * 15 + [sc]
 def c08_layers(runs, budget, free_runs):
-    return [dict(runs=runs, budget_s=budget, params="")] * 15 + [dict(runs=free_runs, budget_s=budget, params="mode=free")]
+    return [dict(runs=runs, budget_s=budget, params="")] * 15 + [dict(runs=free_runs, budget_s=budget, params="mode=free")] + native([dict(runs=free_runs, budget_s=budget, params="mode=free")])
 q, t = tiers(120, 60, 5000, 1200)
 q["layers"] = c08_layers(120, 60, 25)
 t["layers"] = c08_layers(5000, 1200, 3000)
@@ -125,8 +132,8 @@ plan("C06", "fault_enumeration",
      q, t, crash_is_violation=True)
 
 q, t = tiers(200, 60, 10000, 900)
-q["layers"] = [dict(runs=200, budget_s=60, params="")] * 15 + [dict(runs=48, budget_s=60, params="mode=edge")]
-t["layers"] = [dict(runs=10000, budget_s=900, params="")] * 15 + [dict(runs=48, budget_s=900, params="mode=edge")]
+q["layers"] = [dict(runs=200, budget_s=60, params="")] * 15 + [dict(runs=48, budget_s=60, params="mode=edge")] + native([dict(runs=48, budget_s=60, params="mode=edge")])
+t["layers"] = [dict(runs=10000, budget_s=900, params="")] * 15 + [dict(runs=48, budget_s=900, params="mode=edge")] + native([dict(runs=48, budget_s=900, params="mode=edge")])
 q["require_complete"] = t["require_complete"] = [("edge_cases", "edge_total")]
 q["require_probes"] = t["require_probes"] = ["edge_exit_signed_for_listed_source", "edge_exit_refused_for_unlisted_source"]
 plan("C05", "exploration",
@@ -160,15 +167,15 @@ def c13_layers(matrix_runs, rand_runs, budget, mw=8):
     ls += [dict(runs=rand_runs, budget_s=budget, params="")] * (16 - mw)
     return ls
 q, t = tiers(60, 120, 1500, 1500)
-q["layers"] = c13_layers(100, 40, 120)
-t["layers"] = c13_layers(200, 1500, 1500)
+q["layers"] = c13_layers(125, 40, 120)
+t["layers"] = c13_layers(260, 1500, 1500)
 q["require_complete"] = t["require_complete"] = [("matrix_cases", "matrix_total")]
 q["require_probes"] = t["require_probes"] = ["failed_generations", "recovery_generations"]
 plan("C13", "fault_enumeration",
      "(a) single-fault matrix, enumerated completely: (n,t) in {(2,2),(3,2),(3,3),(4,3),(5,3)} (thorough adds (5,4),(7,4)) x every message of the prepare/execute/contribute sequence, "
      "addressed by identity (sender, receiver, kind, account, occurrence) x fault kind {lost, error reply, lost reply, duplicate delivery; for contributions, in request and in reply "
      "direction: share replaced, share computed for another id, last / first commitment altered, vector too short / too long (inconsistent), vector too short / too long with a share "
-     "consistent with it (a dishonest participant's own polynomial), empty vector}; (b) seeded double faults on drawn id sets. distinct = distinct case; non-trivial = all. "
+     "consistent with it (a dishonest participant's own polynomial), empty vector; and each of these alterations arriving as a second contribution after the genuine one was accepted}; (b) seeded double faults on drawn id sets. distinct = distinct case; non-trivial = all. "
      "Oracle: the client gets an error, no instance holds the account in its wallet store or its cache, no handler call panics, and a fault-free generation under another name then "
      "succeeds with a fully consistent key (C12's oracle); duplicate delivery may alternatively end in a fully consistent success.",
      q, t, real_vs_stub=REAL_W2, crash_is_violation=True)
@@ -176,21 +183,21 @@ plan("C13", "fault_enumeration",
 def all_matrix_layers(runs, budget, mw=16, extra=""):
     return [dict(runs=runs, budget_s=budget, params="mode=matrix,mw=%d,mW=%d%s" % (k, mw, extra)) for k in range(mw)]
 q, t = tiers(30, 90, 600, 1200)
-q["layers"] = all_matrix_layers(50, 90, mw=14) + [dict(runs=60, budget_s=90, params="mode=tls"), dict(runs=8, budget_s=90, params="mode=tlsconc")]
-t["layers"] = all_matrix_layers(600, 1200, mw=14) + [dict(runs=60, budget_s=1200, params="mode=tls"), dict(runs=300, budget_s=1200, params="mode=tlsconc")]
+q["layers"] = all_matrix_layers(62, 90, mw=14) + [dict(runs=60, budget_s=90, params="mode=tls"), dict(runs=8, budget_s=90, params="mode=tlsconc")] + native([dict(runs=60, budget_s=90, params="mode=tls"), dict(runs=8, budget_s=90, params="mode=tlsconc")])
+t["layers"] = all_matrix_layers(600, 1200, mw=14) + [dict(runs=60, budget_s=1200, params="mode=tls"), dict(runs=300, budget_s=1200, params="mode=tlsconc")] + native([dict(runs=60, budget_s=1200, params="mode=tls"), dict(runs=300, budget_s=1200, params="mode=tlsconc")])
 q["require_complete"] = t["require_complete"] = [("matrix_cases", "matrix_total"), ("edge_cases", "edge_total")]
-q["require_probes"] = t["require_probes"] = ["legit_continuations_ok", "share_ownership_checks", "peer_contribution_replies_checked", "ownership_generations", "edge_genuine_peer_served", "edge_non_peer_calls", "edge_concurrent_non_peer_calls"]
+q["require_probes"] = t["require_probes"] = ["legit_continuations_ok", "share_ownership_checks", "peer_contribution_replies_checked", "ownership_generations", "edge_genuine_peer_served", "edge_non_peer_calls", "edge_concurrent_non_peer_calls", "concurrent_non_peer_messages"]
 plan("C16", "exploration",
      "the table caller identity {a peer, a configured peer that is not a participant of the generation, an ordinary client with all permissions, empty name, unknown name, a peer's name in upper case, a peer's name with a suffix} x message "
      "{prepare, execute, contribute (with a contribution that would verify), commit, abort} x session state at the receiving instance {none, prepared, executed, committed, aborted, "
      "expired (fake clock)} is enumerated completely (360 cases, and 270 more in which a genuine peer earlier opened a generation for another account whose participant list names the non-peer caller; callers also: a peer name as host of a longer domain name, with a trailing dot, a prefix of it, with a port, with a leading space) through the real receiver handlers of a 4-instance cluster (3 participants), a 60-case credential x message table goes over real gRPC/TLS (TLS edge; credentials include certificates the configured authority issued to a client with a peer's name among their alternative names); the remaining runs are seeded fault-free generations with "
-     "drawn (n,t) and id sets. distinct = distinct table case or (n,t,id-class); non-trivial = all. Oracle: a non-peer gets an error and no share, and the legitimate protocol run "
+     "drawn (n,t) and id sets and (a third) phases of 2-4 messages of different callers in flight at one instance at once under the seeded scheduler. distinct = distinct table case or (n,t,id-class); non-trivial = all. Oracle: a non-peer gets an error and no share, and the legitimate protocol run "
      "continues from that state to a committed account on every participant; every contribution the transport carries (request and reply) has share = originator's vector evaluated "
      "at the recipient's id and at no other participant's id.",
      q, t, real_vs_stub=REAL_W2)
 q, t = tiers(200, 60, 10000, 1200)
-q["layers"] = [dict(runs=200, budget_s=60, params="")] * 15 + [dict(runs=12, budget_s=60, params="mode=free")]
-t["layers"] = [dict(runs=10000, budget_s=1200, params="")] * 15 + [dict(runs=1500, budget_s=1200, params="mode=free")]
+q["layers"] = [dict(runs=200, budget_s=60, params="")] * 15 + [dict(runs=12, budget_s=60, params="mode=free")] + native([dict(runs=12, budget_s=60, params="mode=free")])
+t["layers"] = [dict(runs=10000, budget_s=1200, params="")] * 15 + [dict(runs=1500, budget_s=1200, params="mode=free")] + native([dict(runs=1500, budget_s=1200, params="mode=free")])
 q["require_probes"] = t["require_probes"] = ["life_commit_ok", "life_abort", "life_clock_advances", "life_execute_ok", "free_simultaneous_prepares"]
 plan("C17", "exploration",
      "one case = one seeded sequence of 8-31 events {prepare, execute, commit, abort on a drawn instance for one of 1-3 account names; clock advance: a third of the timeout / exactly "
@@ -213,11 +220,13 @@ plan("C14", "exploration",
 REAL_W5 = ("REAL: services/api/grpc (gRPC server, TLS 1.3 with RequireAndVerifyClientCert, request-id/source-ip/client-info interceptors), all five registered services' handlers and "
            "services behind them on a loopback port; the repository's own test certificates and authority; clients built with crypto/tls. No bubble, no scheduler: calls are sequential. STUB: DKG sender.")
 q, t = tiers(50, 120, 50, 300)
-q["layers"] = all_matrix_layers(104, 120, mw=14) + [dict(runs=10, budget_s=120, params="mode=conc"), dict(runs=12, budget_s=120, params="mode=resume")]
-t["layers"] = all_matrix_layers(104, 300, mw=14) + [dict(runs=200, budget_s=300, params="mode=conc"), dict(runs=200, budget_s=300, params="mode=resume")]
+q["layers"] = all_matrix_layers(104, 120, mw=14) + [dict(runs=10, budget_s=120, params="mode=conc"), dict(runs=12, budget_s=120, params="mode=resume"), dict(runs=40, budget_s=120, params="mode=portreuse")]
+t["layers"] = all_matrix_layers(104, 300, mw=14) + [dict(runs=200, budget_s=300, params="mode=conc"), dict(runs=200, budget_s=300, params="mode=resume"), dict(runs=2000, budget_s=300, params="mode=portreuse")]
+q["layers"] = native(q["layers"]) + q["layers"]
+t["layers"] = native(t["layers"]) + t["layers"]
 q["exhaustive"] = t["exhaustive"] = True
 q["require_complete"] = t["require_complete"] = [("matrix_cases", "matrix_total")]
-q["require_probes"] = t["require_probes"] = ["untrusted_calls", "permitted_calls_served", "concurrent_identity_requests", "resume_attempts_against_other_authority"]
+q["require_probes"] = t["require_probes"] = ["untrusted_calls", "permitted_calls_served", "concurrent_identity_requests", "resume_attempts_against_other_authority", "portreuse_identity_changes_on_one_source_address"]
 plan("C19", "other",
      "complete table: server configuration {authority configured, no authority configured} x every method of the five registered gRPC services (16) x caller credential {plaintext, TLS without "
      "client certificate, self-signed with a permitted name, other authority with a permitted name, authority from the host trust store with a permitted name, certificate chained through a "
@@ -230,8 +239,8 @@ plan("C19", "other",
      assumptions=["Go crypto/tls and x509 verification are trusted", "the host trust store is pointed (SSL_CERT_FILE) at a generated foreign authority to cover servers that fall back to system roots"])
 
 q, t = tiers(150, 90, 6000, 1500)
-q["layers"] = [dict(runs=150, budget_s=90, params="")] * 14 + [dict(runs=70, budget_s=90, params="mode=free")] * 2
-t["layers"] = [dict(runs=6000, budget_s=1500, params="")] * 14 + [dict(runs=2000, budget_s=1500, params="mode=free")] * 2
+q["layers"] = [dict(runs=150, budget_s=90, params="")] * 7 + native([dict(runs=150, budget_s=90, params="")] * 7) + [dict(runs=70, budget_s=90, params="mode=free")] + native([dict(runs=70, budget_s=90, params="mode=free")])
+t["layers"] = [dict(runs=6000, budget_s=1500, params="")] * 7 + native([dict(runs=6000, budget_s=1500, params="")] * 7) + [dict(runs=2000, budget_s=1500, params="mode=free")] + native([dict(runs=2000, budget_s=1500, params="mode=free")])
 q["require_probes"] = t["require_probes"] = ["canaries_served", "requests", "free_running_volleys"]
 plan("C20", "exploration",
      "one case = one generated request: structure-aware generation per RPC of Lister, Signer (5), AccountManager (3), WalletManager (2) and the five key-generation messages (from non-peers and "
@@ -278,17 +287,21 @@ plan("C18", "exploration",
 
 REAL_W3 = ("REAL: the dirk binary built from the working tree (-tags verif), run as short-lived processes on one storage directory (--export/--import-slashing-protection with environment configuration); "
            "between them a real handler-to-badger stack opened in the worker process on the same directory for signing and probing. No bubble, no scheduler: steps are sequential processes. "
-           "Fault: self-kill of the import at a drawn storage point (VERIF_HOOK_KILL_AT).")
+           "Faults: self-kill of the import at a drawn storage point (VERIF_HOOK_KILL_AT); the N-th storage operation of the importing process fails (VERIF_HOOK_FAIL_AT).")
 q, t = tiers(60, 120, 2500, 1500)
-q["require_probes"] = t["require_probes"] = ["imports_succeeded", "imports_rejected", "imports_with_wrong_metadata", "fault_import_killed_at_storage_point", "probes"]
+q["layers"] = [dict(runs=60, budget_s=120, params="")] * 8 + native([dict(runs=60, budget_s=120, params="")] * 8)
+t["layers"] = [dict(runs=2500, budget_s=1500, params="")] * 8 + native([dict(runs=2500, budget_s=1500, params="")] * 8)
+q["require_probes"] = t["require_probes"] = ["imports_succeeded", "imports_rejected", "imports_with_wrong_metadata", "fault_import_killed_at_storage_point", "fault_import_storage_operation_failed", "probes"]
 plan("C10", "exploration",
      "one case = one seeded history: 1-4 keys with drawn prior signing history (through the real signer), then 1-3 imports of generated interchange files (1-5 data entries, repeated keys, 0-2 blocks "
      "and attestations per entry with values around the protected ones - newer in one field, older in another -, unprefixed / upper-case / non-hex keys, malformed numbers, wrong version, wrong "
-     "or differently written genesis root), a fifth of them first killed at a drawn storage point and then re-run; each step is a real process. distinct = distinct (file, prior database); "
+     "or differently written genesis root), a fifth of them first killed at a drawn storage point and then re-run, a fifth with the N-th storage operation of the importing process (or all from the N-th on) failing; each step is a real process. distinct = distinct (file, prior database); "
      "non-trivial = all. Oracle: no exported field ever decreases across any step; wrong metadata => non-zero exit and unchanged export; after exit 0 the export covers, field by field, the "
      "key's own history and every value of every successfully imported file; a restarted instance refuses proposals at, and attestations at or below, those values.",
      q, t, real_vs_stub=REAL_W3, needs_dirk=True)
 q, t = tiers(60, 120, 2500, 1500)
+q["layers"] = [dict(runs=60, budget_s=120, params="")] * 8 + native([dict(runs=60, budget_s=120, params="")] * 8)
+t["layers"] = [dict(runs=2500, budget_s=1500, params="")] * 8 + native([dict(runs=2500, budget_s=1500, params="")] * 8)
 q["require_probes"] = t["require_probes"] = ["legacy_format_runs", "probes"]
 plan("C11", "exploration",
      "one case = one seeded history over 1-4 keys: optionally a store pre-populated with old-format (gob) attestation and proposal records of drawn values incl. zeros, then 0-15 well-formed "
